@@ -1,6 +1,7 @@
 package main
 
 import (
+	xcurve "golang.org/x/crypto/curve25519"
 	"net"
 	"math/bits"
 	"crypto/ecdh"
@@ -1401,5 +1402,25 @@ func init() {
 			panic(pathEnd{kind: "unsupported", msg: "net.IP.String of symbolic bytes"})
 		}
 		return net.IP(b).String()
+	})
+}
+
+func init() {
+	// the legacy ScalarMult (no low-order check), computed natively
+	reg("golang.org/x/crypto/curve25519.ScalarMult", func(m *Machine, fr *frame, a []Value) Value {
+		dst := (*a[0].(*Value)).(Array)
+		sc, ok1 := concBytes(*a[1].(*Value))
+		pt, ok2 := concBytes(*a[2].(*Value))
+		if !ok1 || !ok2 {
+			panic(pathEnd{kind: "unsupported", msg: "ScalarMult of symbolic bytes"})
+		}
+		var d, s, p [32]byte
+		copy(s[:], sc)
+		copy(p[:], pt)
+		xcurve.ScalarMult(&d, &s, &p) //nolint:staticcheck
+		for i := range d {
+			dst[i] = int64(d[i])
+		}
+		return nil
 	})
 }
